@@ -305,6 +305,26 @@ func (generator *ConverterGenerator) mappingForOption(context Context, converter
 		return OptionMapping{}
 	}
 
+	// the arguments are printed in the order the option declares them, which is not
+	// necessarily the order of its assignments (`range(min, max)` can assign max first)
+	positions := make(map[string]int, len(option.Args))
+	for position, arg := range option.Args {
+		positions[arg.Name] = position
+	}
+	positionOf := func(assignment ast.Assignment) int {
+		if assignment.Value.Argument == nil {
+			return len(option.Args)
+		}
+		if position, declared := positions[assignment.Value.Argument.Name]; declared {
+			return position
+		}
+
+		return len(option.Args)
+	}
+	sort.SliceStable(assignments, func(a, b int) bool {
+		return positionOf(assignments[a]) < positionOf(assignments[b])
+	})
+
 	// an argument of the option can feed several assignments: it is printed once
 	mappedArguments := make(map[string]struct{})
 
